@@ -18,7 +18,7 @@ func init() {
 			"(R2) ActorOf returns without registration or tell when construction fails, without tell on a name conflict, and otherwise registers, records the child and tells OnLaunch before any other message to the child; " +
 			"(R3) the construction chain runs prelaunch before the mailbox and behaviour are installed and a failing step aborts construction; (R4) the restart success path replaces the actor through the provider, resets the behaviour stack to that actor's OnReceive, sets running before telling OnLaunch and resuming, and never touches registration, ref or mailbox; " +
 			"(R5) no behaviour invocation is reachable for a killed non-zombie actor (guard truth table, shared with C03); (R6) the kill chain's partial order and OnKill-before-own-OnKilled in the kill routine. " +
-			"(R2, addition) every event published by ActorOf after the registration is dominated by the OnLaunch tell: a subscriber reacting to the spawn announcement finds OnLaunch already queued. NOT decided: the complete per-actor delivery order at run time.",
+			"(R2, addition) every event published by ActorOf after the registration is dominated by the OnLaunch tell: a subscriber reacting to the spawn announcement finds OnLaunch already queued. (R7) a deferred recover in a function that reports an outcome assigns that outcome (or panics again) on every path from the edge on which a panic was recovered; (R8) every behaviour run reachable from the envelope handler executes the value the handler chose (empty for a zombie), handed down unchanged; (R9) the restart step must not enqueue the new incarnation's OnLaunch behind pending system messages — today it does: known finding F36. NOT decided: the complete per-actor delivery order at run time.",
 		Assumptions: []string{"chain steps are exactly the appended functions (chain idiom)"},
 		Rules: []Rule{
 			{ID: "C05.R1", Min: 2, Desc: "OnLaunch addressing", Fn: c05Launch},
@@ -26,6 +26,9 @@ func init() {
 			{ID: "C05.R3", Min: 3, Desc: "construction order", Fn: c05Construct},
 			{ID: "C05.R4", Min: 5, Desc: "restart re-initialisation", Fn: c05Restart},
 			{ID: "C05.R5", Min: 12, Desc: "nothing after death (guard truth table)", Fn: c03Guard},
+			{ID: "C05.R9", Min: 1, Desc: "the OnLaunch of a restarted incarnation is handled before anything queued behind the restart", Fn: c05RestartLaunchFirst},
+			{ID: "C05.R8", Min: 2, Desc: "every behaviour run made while handling an envelope uses the behaviour chosen at the top of the handler (the empty one for a zombie)", Fn: c05ChosenBehaviour},
+			{ID: "C05.R7", Min: 1, Desc: "a recovered panic is never turned into success (a hook that panics fails the construction / restart step)", Fn: recoveredPanicsAreFailures},
 			{ID: "C05.R6", Min: 5, Desc: "kill-chain order", Fn: c05KillChain},
 		},
 	})
@@ -80,6 +83,16 @@ func c05Launch(p *Program, r *Report) {
 				good = good && allContain(rec, "field:"+lc.pat(lc.RefF))
 			}
 			r.Check(good, "OnLaunch told in "+fnName(fn), ts.In.Pos(), "system message addressed to the launched context's own ref ("+strings.Join(rec, " | ")+"), never to a parent")
+		}
+	}
+	// the synchronous form (a restart step handing OnLaunch to its own envelope handler)
+	for _, fn := range p.Mod {
+		for _, sl := range p.syncLaunches(lc, fn) {
+			n++
+			b, isC := constBool(sl.System)
+			rec := p.origins(sl.Receiver)
+			good := isC && b && len(rec) > 0 && allContain(rec, "field:"+lc.pat(lc.RefF)) && !anyContains(rec, "parent") && !anyContains(rec, "Sender")
+			r.Check(good, "OnLaunch handled in "+fnName(fn), sl.In.Pos(), "a system envelope addressed to the launched context's own ref ("+strings.Join(rec, " | ")+"), handed to its own envelope handler")
 		}
 	}
 	if n == 0 {
@@ -357,10 +370,25 @@ func c05Restart(p *Program, r *Report) {
 		c := callOf(in)
 		return c != nil && c.IsInvoke() && c.Method.Name() == "Resume"
 	})
+	syncForm := false
+	for _, f := range g.Fns {
+		for _, sl := range p.syncLaunches(lc, f) {
+			launch[g.Idx[sl.In]] = true
+			syncForm = true
+		}
+	}
 	good := len(run) > 0 && len(launch) > 0
 	for l := range launch {
 		if !g.DominatedByNodes(l, run) {
 			good = false
+		}
+		// handled synchronously: the mailbox is resumed BEFORE, so that a failure inside OnLaunch (which pauses the mailbox again
+		// until the supervisor decides) is not undone by a later Resume
+		if syncForm {
+			if !g.DominatedByNodes(l, resume) || anyOf(g.ReachAfter(l, nil, nil), resume) {
+				good = false
+			}
+			continue
 		}
 		// a resume follows the launch on every path
 		if anyIn(g.ReachAfter(l, resume, nil), g.Exits) {
@@ -501,4 +529,130 @@ func c05KillChain(p *Program, r *Report) {
 		}
 	}
 	r.Check(ok, "OnKill behaviour precedes own OnKilled", firstPos(g, fin), "in the kill routine the kill chain is started only after the behaviour ran for OnKill")
+}
+
+// c05ChosenBehaviour: the envelope handler picks the behaviour once — the top of the stack, or the empty behaviour when the
+// actor is a zombie ("sees nothing after the OnKilled that names itself"; a zombie runs no user code) — and every handler
+// it dispatches to runs THAT value. A handler that looks at the stack again bypasses the zombie substitution (and, after a
+// failed restart with a provider, reaches a fresh instance that never saw OnLaunch).
+func c05ChosenBehaviour(p *Program, r *Report) {
+	lc := lcOrFail(p, r)
+	if lc == nil {
+		return
+	}
+	if lc.ExecRecover == nil {
+		r.Unresolved("recover wrapper")
+		return
+	}
+	g := p.igx(lc.HandleEnvelop)
+	// the chosen behaviour: a phi of the handler merging the stack's top with a fixed (empty) behaviour
+	var chosen *ssa.Phi
+	for _, in := range g.Nodes {
+		ph, ok := in.(*ssa.Phi)
+		if !ok || ph.Parent() != lc.HandleEnvelop {
+			continue
+		}
+		if _, isSig := ph.Type().Underlying().(*types.Signature); !isSig {
+			continue
+		}
+		hasCall, hasFixed := false, false
+		for _, e := range ph.Edges {
+			switch x := strip(e).(type) {
+			case *ssa.Call:
+				hasCall = true
+			case *ssa.Function, *ssa.MakeClosure, *ssa.Global:
+				hasFixed = true
+			case *ssa.UnOp:
+				if _, isG := x.X.(*ssa.Global); isG {
+					hasFixed = true
+				}
+			case *ssa.ChangeType:
+				hasFixed = true
+			}
+		}
+		if hasCall && hasFixed {
+			chosen = ph
+		}
+	}
+	if chosen == nil {
+		r.Unresolved("the behaviour chosen by the envelope handler (stack top, or the empty behaviour for a zombie)")
+		return
+	}
+	n := 0
+	for _, in := range g.Nodes {
+		c, ok := in.(*ssa.Call)
+		if !ok || c.Call.StaticCallee() != lc.ExecRecover || len(c.Call.Args) < 2 {
+			continue
+		}
+		n++
+		v := g.res(c.Call.Args[1])
+		r.Check(v == ssa.Value(chosen), "behaviour run in "+fnName(in.Parent())+" uses the handler's choice", c.Pos(), "the behaviour executed is the value the envelope handler chose for this envelope (empty for a zombie), handed down unchanged — not a fresh look at the behaviour stack ("+strings.Join(p.origins(v), " | ")+")")
+	}
+	if n == 0 {
+		r.Unresolved("no behaviour run reachable from the envelope handler")
+	}
+}
+
+// c05RestartLaunchFirst: "in every incarnation an actor's behaviour sees OnLaunch before any other message". A restart runs on
+// the actor's own goroutine while further system messages (a Kill, another Restart) may already sit in its system queue.
+// An OnLaunch that the restart step ENQUEUES lands behind them: the new incarnation then sees OnKill / OnKilled first and its
+// OnLaunch ends as a dead letter (F36). The step must hand OnLaunch to the envelope handler directly.
+func c05RestartLaunchFirst(p *Program, r *Report) {
+	lc := lcOrFail(p, r)
+	if lc == nil {
+		return
+	}
+	g := p.igxSkip(lc.HandleRestart, lc.roleFuncs(p))
+	n := 0
+	for _, ts := range p.tellSitesG(g) {
+		if !strings.HasSuffix(typeName(strip(ts.Message).Type()), "OnLaunch") {
+			continue
+		}
+		n++
+		r.Violate("restart OnLaunch is enqueued", ts.In.Pos(), "the restart step sends the new incarnation's OnLaunch through the mailbox: system messages already queued behind the restart (Kill, Restart) are handled by the new incarnation before its OnLaunch")
+	}
+	for _, in := range g.Nodes {
+		if c := callOf(in); c != nil && c.StaticCallee() == lc.HandleEnvelop {
+			n++
+			r.Check(true, "restart OnLaunch is handled synchronously", in.Pos(), "the restart step hands the envelope to the envelope handler directly, on the actor's own goroutine")
+		}
+	}
+	if n == 0 {
+		r.Unresolved("delivery of OnLaunch in the restart step")
+	}
+}
+
+// syncLaunches: direct calls of the envelope handler in fn with a freshly built envelope whose message is OnLaunch (the
+// synchronous form of a launch, used by a restart step that must not queue OnLaunch behind pending system messages);
+// returns the call instructions with the envelope constructor's (system, receiver) arguments.
+type syncLaunch struct {
+	In       ssa.Instruction
+	System   ssa.Value
+	Receiver ssa.Value
+}
+
+func (p *Program) syncLaunches(lc *lifecycle, fn *ssa.Function) []syncLaunch {
+	var out []syncLaunch
+	for _, b := range fn.Blocks {
+		for _, in := range b.Instrs {
+			c := callOf(in)
+			if c == nil || c.StaticCallee() != lc.HandleEnvelop || len(c.Args) < 2 {
+				continue
+			}
+			env := c.Args[1]
+			if mi, ok := env.(*ssa.MakeInterface); ok {
+				env = mi.X
+			}
+			ec, ok := strip(env).(*ssa.Call)
+			if !ok || len(ec.Call.Args) < 4 {
+				continue
+			}
+			msg := ec.Call.Args[len(ec.Call.Args)-1]
+			if !isAllocOf(msg, "OnLaunch") {
+				continue
+			}
+			out = append(out, syncLaunch{In: in, System: ec.Call.Args[0], Receiver: ec.Call.Args[2]})
+		}
+	}
+	return out
 }
